@@ -29,11 +29,46 @@ Wrong(c) ==
   \cup {<<"basisin-var", i>> : i \in {i \in 1..n0 : g.hasBasis /\ At(g.varstt, i, -777) # inp.varstt[i]}}
   \cup {<<"basisin-row", i>> : i \in {i \in 1..nc : g.hasBasis /\ lin(i) /\ im(i).kind # "none" /\ At(g.constt, im(i).j, -777) # ExpRowStatusIn(im(i), inp.constt[i])}}
   \cup {<<"basisin-slack", i>> : i \in {i \in 1..nc : g.hasBasis /\ lin(i) /\ im(i).kind = "slack" /\ At(g.varstt, im(i).s, -777) # ExpSlackStatusIn(inp.constt[i])}}
+  \cup {<<"dualstart", i>> : i \in {i \in 1..nc : g.hasDualStart /\ lin(i) /\ im(i).kind # "none" /\ At(g.y0, im(i).j, -777) # inp.y0[i]}}
   \cup {<<"lazy", i>> : i \in {i \in 1..nc : g.hasLazy /\ lin(i) /\ im(i).kind # "none" /\ At(g.lazy, im(i).j, -777) # inp.lazy[i]}}
+
+\* ---- histories of direct pre-/postsolve calls on one converted model (API level).
+\* x = [dir, kind, inVars, inCons, outVars, outCons, threw]; for "post" inCons/outVars.. are solver-side in,
+\* original-side out; for "pre" the other way round.  Every output must be the function of ITS OWN input
+\* that ValMap states - whatever was transferred before.
+Clamp(v, lo, hi) == IF v < lo THEN lo ELSE IF v > hi THEN hi ELSE v
+XferWrong(c, n) ==
+  LET x == c.hist[n]   n0 == c.n0   nc == Len(c.ocons)
+      im(i) == Image(c.ocons[i], c.rows, c.vars, n0)
+      lin(i) == c.ocons[i].linear /\ im(i).kind # "none"
+      ansLike == [x |-> x.inVars, y |-> x.inCons, varstt |-> x.inVars, constt |-> x.inCons, variis |-> x.inVars, coniis |-> x.inCons]
+  IN IF x.threw THEN {<<"xfer-threw", n, 0>>}
+     ELSE IF x.dir = "post" THEN
+       {<<"xfer-var", n, i>> : i \in {i \in 1..n0 : At(x.outVars, i, 0) # At(x.inVars, i, 0)}}
+       \cup {<<"xfer-con", n, i>> : i \in {i \in 1..nc : lin(i) /\
+               CASE x.kind \in {"sol"} -> At(x.outCons, i, 0) # ExpDual(im(i), ansLike)
+                 [] x.kind = "basis" -> At(x.outCons, i, 0) # ExpConStatus(im(i), ansLike)
+                 [] x.kind = "iis" -> At(x.outCons, i, 0) # ExpConIIS(im(i), ansLike)
+                 [] x.kind \in {"gint", "gdbl"} -> im(i).kind = "row" /\ At(x.outCons, i, 0) # At(x.inCons, im(i).j, 0)
+                 [] OTHER -> FALSE}}
+     ELSE
+       \* a warm start is moved into the variable's bounds (ValuePresolver::PresolveSolution), other kinds pass unchanged
+       {<<"xfer-var", n, i>> : i \in {i \in 1..n0 :
+           At(x.outVars, i, 0) # (IF x.kind = "sol" THEN Clamp(At(x.inVars, i, 0), c.vars[i].lb, c.vars[i].ub) ELSE At(x.inVars, i, 0))}}
+       \cup {<<"xfer-row", n, i>> : i \in {i \in 1..nc : lin(i) /\
+               CASE x.kind \in {"sol", "lazy", "gint", "gdbl"} -> At(x.outCons, im(i).j, 0) # At(x.inCons, i, 0)
+                 [] x.kind = "basis" -> At(x.outCons, im(i).j, 0) # ExpRowStatusIn(im(i), At(x.inCons, i, 0))
+                 [] OTHER -> FALSE}}
+       \cup {<<"xfer-slack", n, i>> : i \in {i \in 1..nc : lin(i) /\ im(i).kind = "slack" /\
+               CASE x.kind = "basis" -> At(x.outVars, im(i).s, 0) # ExpSlackStatusIn(At(x.inCons, i, 0))
+                 [] x.kind \in {"gint", "gdbl"} -> At(x.outVars, im(i).s, 0) # At(x.inCons, i, 0)
+                 [] OTHER -> FALSE}}
+HistWrong(c) == UNION {XferWrong(c, n) : n \in 1..Len(c.hist)}
 
 Init == l = 1
 Next == /\ l <= Len(Lines) /\ l' = l + 1
         /\ IF E.e = "Case" THEN PrintT(<<"VERDICT", ToJson([id |-> E.id, wrong |-> Wrong(E)])>>)
+           ELSE IF E.e = "Hist" THEN PrintT(<<"VERDICT", ToJson([id |-> E.id, wrong |-> HistWrong(E)])>>)
            ELSE E.e = "Meta" \/ PrintT(<<"VERDICT", ToJson([id |-> -1, wrong |-> {<<"crash", 0>>}])>>)
 Spec == Init /\ [][Next]_<<l>>
 Finished == (l = Len(Lines) + 1) => PrintT(<<"DONE", ToJson([n |-> Len(Lines)])>>)
